@@ -12,6 +12,7 @@ the higher level classes to inherit from.
 import abc
 import inspect
 import itertools
+import operator
 from enum import Enum, unique
 from typing import List, Optional, Set, TypeVar, MutableSet, Generic, Iterable, Dict, Iterator, Union, overload, \
     MutableSequence, Type, Any, TYPE_CHECKING, Tuple, Callable, MutableMapping
@@ -2199,6 +2200,7 @@ class OrderedNamespaceSet(NamespaceSet[_NSO], MutableSequence[_NSO], Generic[_NS
         self._order.clear()
 
     def insert(self, index: int, object_: _NSO) -> None:
+        index = operator.index(index)  # a position list.insert() would refuse must be refused before the object is added
         super().add(object_)
         self._order.insert(index, object_)
 
